@@ -5,18 +5,24 @@ functions rpylib draws from by scripted ones and spies on the producers of jump 
 
 Sub-check "sim"   one case = (simulator, product, simulation mode, maximum step, jump counts per interval); inside a case
                   every multiset of jump-time uniforms from {0.1, 0.5, 0.9} per interval is simulated (handed to the library
-                  in DEcreasing order, so that the library's sort matters).  Fixed-date mode has no jump times: one case
-                  simulates the batch of all count tuples {0,1,2}^n after ONE pre_computation (as the engines do), so that
-                  the paths of a batch must consume disjoint pre-drawn rows.
+                  in DEcreasing order, so that the library's sort matters) on ONE simulator object.  Fixed-date mode has no
+                  jump times: one case simulates the batch of all count tuples {0,1,2}^n after ONE pre_computation (as the
+                  engines do), so that the paths of a batch must consume disjoint pre-drawn rows.
     simulators    LevyProcess on HEM / Merton / exp-HEM (real jump_increment, spied), MarkovChainProcess (HEM; CGMY y=1.2
                   whose diffusion coefficient carries the small-jump adjustment), MarkovChainLevyCopula (HEM x Merton,
-                  Clayton, d=2), CouplingMarkovChain at level 1 and 2 (HEM; CGMY 1.2: fine and coarse coefficients differ),
-                  CouplingProcessLevyCopula at level 1 and 2.  State sampler: INVERSION, and on HEM also BINARYSEARCHTREE,
-                  ALIAS (chain and coupling), TABLE, HUFFMANNTREE, BINARYSEARCHTREEADAPTED1D (coupling) and
-                  BINARYSEARCHTREEADAPTED (copula chain and copula coupling).
-    products      Spot (T=1, T=0.5) and Asian YEARLY with T=1,2,3 / MONTHLY with T=2/12, 3/12: the two producers of time
+                  Clayton, d=2), CouplingMarkovChain at level 0 (simulate_one_path, what the multilevel engine calls at its
+                  first level), 1 and 2 (HEM; CGMY 1.2: fine and coarse coefficients differ), CouplingProcessLevyCopula at
+                  level 0, 1 and 2.  State sampler: INVERSION, and on HEM also BINARYSEARCHTREE, ALIAS (chain and coupling),
+                  TABLE, HUFFMANNTREE, BINARYSEARCHTREEADAPTED1D (coupling) and BINARYSEARCHTREEADAPTED (copula chain and
+                  copula coupling).  Construction routes of a coupling at level >= 1: "direct" (initialisation, next_level
+                  on the same object) and "engine" (the multilevel engine's: at every level pre_computation and one
+                  simulated path, copy.deepcopy, next_level on the copy).  Models also through the "reinit" route of
+                  mc.alphabets (Merton direct, CGMY chain, HEM coupling).
+    products      Spot (T=1, 0.9, 0.5) and Asian YEARLY with T=1,2,3 / MONTHLY with T=2/12, 3/12: the two producers of time
                   grids in rpylib.product.underlying -> 1, 2, 3 intervals; identity payoff with payoff_dates_type
-                  DETERMINISTIC (fixed dates) or STOCHASTIC (jump times); maximum step eps in {T/4, T/2.5, 2T}.
+                  DETERMINISTIC (fixed dates) or STOCHASTIC (jump times); maximum step eps in {T/4, T/2.5, 2T, T/5, T/10}
+                  (T/5, T/10: gaps between the scripted jump times / to the maturity that are multiples of eps in decimal but
+                  not in binary: 0.2 and 0.1 against 0.1, 0.5, 0.9, 1.0) and, for T = 0.9, {T/3 = 0.3, T/9 = 0.1, T/4}.
     oracle        t[0]=0 and both components 0 there; times non-decreasing (strictly where the scripted jump times differ),
                   last = maturity; fixed dates: times = product dates; jump times: times = {0} + scripted jump times + {T};
                   jump component: at every product date (fixed) / jump time the increment since the previous point is the
@@ -25,18 +31,41 @@ Sub-check "sim"   one case = (simulator, product, simulation mode, maximum step,
                   one of the moves the coarse grid allows for the fine state increment (same state for even increments, one
                   of the two neighbours for odd ones), again as a running sum; diffusion component: every increment divided
                   by coefficient*sqrt(dt) is one scripted Brownian variate, each used at most once (per path and, in a
-                  pre-drawn batch, across paths) - layout independent; maximum step: every step <= eps(1+1e-12), every
-                  original time present with its value, inserted points repeat the preceding jump value, all components
-                  have one column per time.
+                  pre-drawn batch, across paths AND across the batches of one object) - layout independent; maximum step:
+                  every step <= eps(1+1e-12), every original time present with its value, inserted points repeat the
+                  preceding jump value and are times of their own (an inserted point within 1e-9*eps of a neighbour is a
+                  violation "times-not-strictly-increasing:inserted-point-at-the-next/previous-time"), all components have
+                  one column per time; the accessors the engines read agree with the stored components (value() =
+                  diffusion + jumps, value_jump() = jumps, times() = jump_times).
+    histories     (on the one simulator object of a case; every path is checked by the oracle right after its simulation)
+                  * KEPT PATHS: the object returned for every path is kept next to a snapshot, as a pool worker keeps the
+                    paths of its chunk; it is read again after the next path, and all kept paths are read again at the end
+                    of the case and after every operation below: any change of times / diffusion / jumps is a violation
+                    "kept-path-changes:<operation>:<component>" (operation next-path | pre-computation-again |
+                    initialisation-again | other-object).  Jump-time / maximum-step cases simulate the first script twice
+                    more at the end, so that the single path of a case without jumps is followed by a later one too.
+                  * pre-computation-again: reset_one_simulation_cost + pre_computation on the same object (engines: once per
+                    pass); fixed dates: a second batch (count tuples in reverse order) must be built from fresh variates.
+                  * initialisation-again: initialisation + pre_computation on the same object (engines: once per pricing);
+                    fixed dates: a third batch.
+                  * other-object: in the middle of the case a second simulator of the same class simulates one path:
+                    copy.deepcopy of the object and, for a coupling, next_level on the copy (what the multilevel engine
+                    does while it goes on using the object of the previous level; for the copula coupling in maximum-step
+                    mode the copy stays at its level - cost).  Leaks through class attributes / module caches show up as a
+                    changed kept path or as a failed oracle on the following paths.
 Sub-check "finer" the two copies of build_finer_grid (levyprocess.SimulationMaximumStep.create_build_finer_grid_fun and
                   coupling/helper.create_build_finer_grid_fun - markovchain.py, markovchainlevycopula.py and the couplings
                   reuse these two) on ALL increasing time arrays with 1..4 points from the lattice {0.1,...,1.0} x eps in
-                  {0.15, 0.3, 0.7, 1.5} x declared maturity in {1, 2} x values 1-d / 2-d.
+                  {0.1, 0.15, 0.2, 0.3, 0.7, 1.5} x declared maturity in {1, 2} x values 1-d / 2-d.  Returned times must be
+                  strictly increasing: consecutive times closer than 1e-9*eps are a violation (an inserted point at the
+                  time of the next one is what splitting a remainder of eps + a few ulps produces).
 
 Outside the alphabet (statement silent): where inside a long gap the extra points are put; presence of the interior product
 dates in jump-time mode (the library returns jump times and the maturity only); which variate feeds which jump inside one
 interval; law of the coupling decision (C03) and of the state sampler (C02); infinite-variation copula models (their
-constructor opens a process pool); tied jump times are only required to be non-decreasing; steps below 1e-9*eps created by the repeated subtraction of eps are counted, not judged.
+constructor opens a process pool) and copulas of dimension 3 (cost of the constructor); tied ORIGINAL jump times (scripted
+equal uniforms) are only required to be non-decreasing; sharing of the (constant) array of product dates between the paths of
+one simulator is not judged (only changes of values are); a path object written to by its holder.
 """
 from __future__ import annotations
 
@@ -51,10 +80,13 @@ from mc import core
 PID = "C15"
 LEVEL = "exploration"
 RULE = (
-    "complete product: simulator x product (1,2,3 intervals) x mode {fixed, jump times, max step eps in {T/4,T/2.5,2T}} x "
-    "jump counts {0,1,2}^intervals x all multisets of jump-time uniforms from {0.1,0.5,0.9}; plus both build_finer_grid "
-    "copies on all <=4-point time arrays of a 10-point lattice x 4 eps; a case is non-trivial when at least one real path "
-    "(or finer grid) was compared with the reference assembly from the scripted variates; distinct = distinct case dict"
+    "complete product: simulator (incl. level-0 couplings, engine construction route, reinit models) x product (1,2,3 "
+    "intervals) x mode {fixed, jump times, max step eps in {T/4,T/2.5,2T,T/5,T/10} ({T/3,T/9,T/4} for T=0.9)} x jump counts "
+    "{0,1,2}^intervals x all multisets of jump-time uniforms from {0.1,0.5,0.9}, all on one simulator object per case with "
+    "the history operations next-path / pre-computation-again / initialisation-again / other-object and every returned path "
+    "kept and re-read; plus both build_finer_grid copies on all <=4-point time arrays of a 10-point lattice x 6 eps; a case "
+    "is non-trivial when at least one real path (or finer grid) was compared with the reference assembly from the scripted "
+    "variates; distinct = distinct case dict"
 )
 ASSUMPTIONS = [
     "numpy.random.{poisson,random_sample,random,normal,uniform,choice} and random.getrandbits are replaced by scripted functions while a case runs; "
@@ -67,9 +99,20 @@ ASSUMPTIONS = [
 CHUNK = 4
 
 U_MENU = (0.1, 0.5, 0.9)
-EPS_FRACS = {"T/4": 0.25, "T/2.5": 0.4, "2T": 2.0}
+EPS_FRACS = {"T/4": 0.25, "T/2.5": 0.4, "2T": 2.0}  # eps = fraction * T
+EPS_DIVS = {"T/5": 5.0, "T/10": 10.0, "T/3": 3.0, "T/9": 9.0}  # eps = T / divisor
+# maximum steps per product: T/5 and T/10 divide the yearly maturities and the gaps between the scripted jump times exactly
+# in decimal but not in binary (0.2, 0.1 against the times 0.1, 0.5, 0.9, 1.0); T = 0.9 with eps = 0.3 and 0.1 likewise
+EPS_MENU = ["T/4", "T/2.5", "2T", "T/5", "T/10"]
+EPS_MENU_BY_PRODUCT = {"spot-09": ["T/3", "T/9", "T/4"]}
 LATTICE = [round(0.1 * k, 10) for k in range(1, 11)]
-FINER_EPS = [0.15, 0.3, 0.7, 1.5]
+FINER_EPS = [0.1, 0.15, 0.2, 0.3, 0.7, 1.5]
+
+
+def _eps_of(name, T):
+    if name is None:
+        return None
+    return EPS_FRACS[name] * T if name in EPS_FRACS else T / EPS_DIVS[name]
 
 
 # ----------------------------------------------------------------------------------------------------------------------
@@ -104,18 +147,20 @@ def cases(tier):
                         out.append({"sub": "finer", "copy": copy, "vals": vals, "maturity": mat, "eps": eps, "k": k})
     if thorough:
         sims = list(U.SIMS)
-        prods = ["spot-1", "spot-05", "asian-y1", "asian-y2", "asian-m2", "asian-y3", "asian-m3"]
+        prods = ["spot-1", "spot-05", "spot-09", "asian-y1", "asian-y2", "asian-m2", "asian-y3", "asian-m3"]
     else:
         sims = ["levy-hem", "levy-merton", "chain-hem", "chain-cgmy12", "copula-chain", "coupling-hem", "coupling-cgmy12",
-                "coupling-copula", "chain-hem-bst", "coupling-hem-bst", "coupling-hem-alias", "coupling-copula-bsta"]
-        prods = ["spot-1", "asian-y2", "asian-m3"]
+                "coupling-copula", "chain-hem-bst", "coupling-hem-bst", "coupling-hem-alias", "coupling-copula-bsta",
+                "coupling-hem-l0", "coupling-copula-l0", "coupling-hem-engine", "coupling-copula-engine",
+                "levy-merton-reinit", "chain-cgmy12-reinit", "coupling-hem-reinit"]
+        prods = ["spot-1", "spot-09", "asian-y2", "asian-m3"]
     for prod in prods:
         n = _n_intervals(prod)
         for sim in sims:
             out.append({"sub": "sim", "sim": sim, "prod": prod, "mode": "fixed", "eps": None})
             for counts in itertools.product((0, 1, 2), repeat=n):
                 out.append({"sub": "sim", "sim": sim, "prod": prod, "mode": "jump", "eps": None, "counts": list(counts)})
-            for ef in EPS_FRACS:
+            for ef in EPS_MENU_BY_PRODUCT.get(prod, EPS_MENU):
                 for counts in itertools.product((0, 1, 2), repeat=n):
                     out.append({"sub": "sim", "sim": sim, "prod": prod, "mode": "max", "eps": ef, "counts": list(counts)})
     return out
@@ -185,7 +230,7 @@ def _multisets(c):
 def _sub_sim(sh, case):
     sim, prod, mode = case["sim"], case["prod"], case["mode"]
     T = U.PRODUCTS[prod][2]
-    eps = None if case.get("eps") is None else EPS_FRACS[case["eps"]] * T
+    eps = _eps_of(case.get("eps"), T)
     cls = U.sim_class(sim)
     sh.cls(f"sim:{sim}")
     sh.cls(f"mode:{mode}")
@@ -207,7 +252,69 @@ def _mode_name(mode):
     return {"fixed": "fixed-dates", "jump": "jump-times", "max": "max-step"}[mode]
 
 
+class _Kept:
+    """Paths kept while the simulator goes on (what a pool worker does with the paths of its chunk, what any caller holding
+    a list of paths does): the object returned by the library next to the snapshot taken right after its simulation.
+    `reread(op)` reads every kept object again and compares it EXACTLY with its snapshot; `op` names the operation that
+    happened in between and goes into the violation key. A path that changed is reported once and dropped."""
+
+    NAMES = ("times", "diffusion", "jumps")
+
+    def __init__(self, sh, d, mode):
+        self.sh, self.d, self.mode = sh, d, mode
+        self.items = []
+
+    def keep(self, label, sp, snap):
+        self.items.append((label, sp, snap))
+
+    def reread(self, op, last_only=False):
+        todo = self.items[-1:] if last_only else list(self.items)
+        for item in todo:
+            label, sp, snap = item
+            self.sh.count("kept_path_rereads")
+            try:
+                now = U.Driver.snapshot(sp)
+            except Exception as e:  # noqa
+                now = None
+                changed = [f"unreadable ({e!r})"]
+                comp = "unreadable"
+            if now is not None:
+                changed = [nm for nm, x, y in zip(self.NAMES, snap, now) if x.shape != y.shape or not np.array_equal(x, y)]
+                comp = changed[0] if changed else None
+            if changed:
+                d = self.d
+                for comp in ([comp] if now is None else changed):
+                    self.sh.violation(
+                        f"C15:{_mode_name(self.mode)}:{d.cls}:kept-path-changes:{op}:{comp}",
+                        f"{d.sim} {d.product_name} {self.mode} eps={d.eps}: the path {label}, kept by the caller, no longer "
+                        f"carries its own {comp} after {op} on the same simulator",
+                        {"path": label, "operation": op, "before": list(snap), "after": None if now is None else list(now)})
+                self.sh.outcome((d.sim, self.mode, "kept-path-changed", op, comp))
+                self.items.remove(item)
+
+
+def _other_object(sh, d, mode, n, kept):
+    """history operation: another simulator of the same class (the engine's deepcopy [+ next_level]) simulates in between"""
+    sh.count("other_object_operations")
+    kept.reread("next-path")  # what changed before the operation is not the operation's
+    try:
+        # the copy of a Levy-copula coupling is not taken to the next level in maximum-step mode (cost of the finer chain,
+        # there are 5 * 3^n such cases per simulator and product): it stays a copy at the same level
+        d.other_object(next_level=not (d.cls == "coupling-copula" and d.levels > 0 and mode == "max"))
+    except U.ProtocolError:
+        raise
+    except Exception as e:
+        sh.violation(_raise_key(mode, d.cls, e, n) + ":other-object",
+                     f"{d.sim} {d.product_name} {mode}: a deep copy of the simulator (taken to the next level for a coupling) "
+                     f"could not simulate: {e!r}", None)
+        return
+    kept.reread("other-object")
+
+
 def _run_fixed(sh, case, sim, prod, cls):
+    """batch 1: all count tuples after ONE pre_computation, every path kept, in the middle of the batch another object of
+    the same class simulates; batch 2 (same object, when batch 1 went through): pre_computation again for the tuples in
+    reverse order.  Brownian variates are identified across both batches (each feeds at most one path)."""
     n = _n_intervals(prod)
     tuples = list(itertools.product((0, 1, 2), repeat=n))
     remaining = list(tuples)
@@ -229,32 +336,78 @@ def _run_fixed(sh, case, sim, prod, cls):
             return
         try:
             G = d.grid_times
-            lams = d.pre_lams
-            want = [float((G[k + 1] - G[k]) * d.proc.intensity()) for k in range(n) for _ in range(B)]
-            if len(lams) != len(want) or any(not core.close(a, b, 1e-9) for a, b in zip(lams, want)):
-                raise U.ProtocolError(f"jump counts are not drawn interval-major with rate dt*intensity: {lams[:6]} vs {want[:6]}")
+            kept = _Kept(sh, d, "fixed")
+
+            def protocol(nb):
+                lams = d.pre_lams
+                want = [float((G[k + 1] - G[k]) * d.proc.intensity()) for k in range(n) for _ in range(nb)]
+                if len(lams) != len(want) or any(not core.close(a, b, 1e-9) for a, b in zip(lams, want)):
+                    raise U.ProtocolError(f"jump counts are not drawn interval-major with rate dt*intensity: {lams[:6]} vs {want[:6]}")
+
+            def batch(todo, pool, used_batch, offset, middle_op):
+                """returns the number of tuples of `todo` dealt with, and whether a simulation raised"""
+                for p, counts in enumerate(todo):
+                    if middle_op and p == (len(todo) + 1) // 2:
+                        _other_object(sh, d, "fixed", n, kept)
+                    try:
+                        t, D, J = d.simulate(reload=False)
+                    except U.ProtocolError:
+                        raise
+                    except Exception as e:
+                        sh.count("evaluations")
+                        sh.violation(_raise_key("fixed", cls, e, n), f"{sim} {prod} counts {counts}: {e!r}", {"counts": counts})
+                        sh.outcome((sim, "fixed", counts, "raises", type(e).__name__))
+                        return p + 1, True
+                    _oracle(sh, d, "fixed", None, counts, None, t, D, J, pool, used_batch, offset + p)
+                    kept.reread("next-path", last_only=True)
+                    kept.keep(f"#{offset + p} (counts {counts})", d.last_path, (t, D, J))
+                kept.reread("next-path")
+                return len(todo), False
+
+            protocol(B)
             pool = list(d.pre_brownian)
             used_batch = {}
-            done = 0
-            for p, counts in enumerate(remaining):
+            done, raised = batch(remaining, pool, used_batch, 0, middle_op=True)
+            remaining = remaining[done:]
+            if not raised:
+                # second batch on the same object, as the engines do at every pass
+                todo = list(reversed(tuples))
+                script2 = [todo[p][k] for k in range(n) for p in range(len(todo))]
                 try:
-                    t, D, J = d.simulate(reload=False)
+                    d.precompute_again(script2)
                 except U.ProtocolError:
                     raise
                 except Exception as e:
-                    sh.count("evaluations")
-                    sh.violation(_raise_key("fixed", cls, e, n), f"{sim} {prod} counts {counts}: {e!r}", {"counts": counts})
-                    sh.outcome((sim, "fixed", counts, "raises", type(e).__name__))
-                    done = p + 1
-                    break
-                _oracle(sh, d, "fixed", None, counts, None, t, D, J, pool, used_batch, p)
-                done = p + 1
-            remaining = remaining[done:]
+                    sh.violation(_raise_key("fixed", cls, e, n) + ":pre-computation-again", f"{sim} {prod}: {e!r}", None)
+                    return
+                sh.count("second_batches")
+                kept.reread("pre-computation-again")
+                protocol(len(todo))
+                pool.extend(d.pre_brownian)
+                done, raised = batch(todo, pool, used_batch, len(tuples), middle_op=False)
+                if raised:
+                    return
+                # third batch after the public initialisation() on the same object, as a second pricing does
+                script3 = [tuples[p][k] for k in range(n) for p in range(len(tuples))]
+                try:
+                    d.precompute_again(script3, reinit=True)
+                except U.ProtocolError:
+                    raise
+                except Exception as e:
+                    sh.violation(_raise_key("fixed", cls, e, n) + ":initialisation-again", f"{sim} {prod}: {e!r}", None)
+                    return
+                kept.reread("initialisation-again")
+                protocol(len(tuples))
+                pool.extend(d.pre_brownian)
+                batch(tuples, pool, used_batch, 2 * len(tuples), middle_op=False)
         finally:
             ctx.__exit__(None, None, None)
 
 
 def _run_jump(sh, case, sim, prod, cls, mode, eps):
+    """all multisets of jump-time uniforms on ONE simulator, every path kept; half-way a second pre_computation on the same
+    object and a path simulated by another object of the same class; at the end the first script once more (so that every
+    path, also the only one of a case without jumps, is followed by a later one) and all the kept paths are read again."""
     counts = tuple(case["counts"])
     n = len(counts)
     d = U.Driver(sim, prod, mode, eps)
@@ -267,7 +420,31 @@ def _run_jump(sh, case, sim, prod, cls, mode, eps):
         sh.violation(_raise_key(mode, cls, e, n) + ":at-initialisation", f"{sim} {prod}: {e!r}", None)
         return
     try:
-        for us in itertools.product(*[_multisets(c) for c in counts]):
+        kept = _Kept(sh, d, mode)
+        scripts = list(itertools.product(*[_multisets(c) for c in counts]))
+        scripts.extend([scripts[0], scripts[0]])
+        for q, us in enumerate(scripts):
+            if q == len(scripts) - 1:
+                kept.reread("next-path")  # what changed before the operation is not the operation's
+                try:
+                    d.precompute_again(reinit=True)
+                except U.ProtocolError:
+                    raise
+                except Exception as e:
+                    sh.violation(_raise_key(mode, cls, e, n) + ":initialisation-again", f"{sim} {prod}: {e!r}", None)
+                    return
+                kept.reread("initialisation-again")
+            if q == (len(scripts) - 1) // 2:
+                kept.reread("next-path")
+                try:
+                    d.precompute_again()
+                except U.ProtocolError:
+                    raise
+                except Exception as e:
+                    sh.violation(_raise_key(mode, cls, e, n) + ":pre-computation-again", f"{sim} {prod}: {e!r}", None)
+                    return
+                kept.reread("pre-computation-again")
+                _other_object(sh, d, mode, n, kept)
             try:
                 t, D, J = d.simulate(counts=counts, times=us)
             except U.ProtocolError:
@@ -284,6 +461,9 @@ def _run_jump(sh, case, sim, prod, cls, mode, eps):
                 sh.violation(f"C15:{_mode_name(mode)}:{cls}:scripted-jump-counts-not-all-drawn:{_icls(n)}",
                              f"{sim} {prod}: {left} scripted counts/time lists were never drawn", {"counts": counts})
             _oracle(sh, d, mode, eps, counts, us, t, D, J, list(d.rng.brownian), {}, 0)
+            kept.reread("next-path", last_only=True)
+            kept.keep(f"#{q} (counts {counts}, uniforms {us})", d.last_path, (t, D, J))
+        kept.reread("next-path")
     finally:
         ctx.__exit__(None, None, None)
 
@@ -329,6 +509,24 @@ def _oracle(sh, d, mode, eps, counts, us, t, D, J, pool, used_batch, p_index):
     # ---- start
     if t[0] != 0.0 or any(np.any(Dc[:, 0] != 0.0) or np.any(Jc[:, 0] != 0.0) for Dc, Jc in comps):
         viol("does-not-start-at-zero", f"t0={t[0]}, first columns {[(Dc[:, 0], Jc[:, 0]) for Dc, Jc in comps]}")
+
+    # ---- the accessors the engines read: value() = diffusion + jumps, value_jump() = jumps, times() = jump_times
+    sp = d.last_path
+    try:
+        val = np.asarray(sp.value(), dtype=float)
+        vj = np.asarray(sp.value_jump(), dtype=float)
+        jt = np.array([float(x) for x in getattr(sp, "jump_times", sp.times())], dtype=float)
+        acc = None
+        if val.shape != D.shape or np.any(np.abs(val - (D + J)) > 1e-15 + 1e-12 * (np.abs(D) + np.abs(J))):
+            acc = ("value", val, D + J)
+        elif vj.shape != J.shape or not np.array_equal(vj, J):
+            acc = ("value_jump", vj, J)
+        elif jt.shape != t.shape or not np.array_equal(jt, t):
+            acc = ("times", jt, t)
+    except Exception as e:  # noqa
+        acc = ("raises-" + type(e).__name__, repr(e), None)
+    if acc is not None:
+        viol(f"path-accessor-inconsistent:{acc[0]}", f"path.{acc[0]}() gives {acc[1]}, the stored components give {acc[2]}")
 
     # ---- reference original times
     if mode == "fixed":
@@ -419,8 +617,7 @@ def _oracle(sh, d, mode, eps, counts, us, t, D, J, pool, used_batch, p_index):
                     break
                 continue
             if dts[j] < small:
-                sh.count("rounding_residual_steps")
-                continue
+                continue  # judged below (maximum step: an inserted point at the time of its neighbour)
             w = np.linalg.solve(Cm, dD) / math.sqrt(dts[j])
             for x in w:
                 hit = None
@@ -457,6 +654,13 @@ def _oracle(sh, d, mode, eps, counts, us, t, D, J, pool, used_batch, p_index):
                 else:
                     gap = "gap-between-jumps"
                 viol("step-exceeds-maximum", f"step {t[j]} -> {t[j + 1]} = {dts[j]} > eps = {eps}", extra=gap)
+        for j in range(m1 - 1):
+            # an inserted point must be a time of its own: strictly between its neighbours, further than rounding
+            if dts[j] < small and (j not in orig or (j + 1) not in orig):
+                where = "inserted-point-at-the-next-time" if j not in orig else "inserted-point-at-the-previous-time"
+                viol("times-not-strictly-increasing", f"times {t[j]!r} and {t[j + 1]!r} (step {dts[j]}) around an inserted point; "
+                     f"eps = {eps}", extra=where)
+                break
         for j in range(1, m1):
             if j not in orig:
                 sh.count("inserted_points")
@@ -654,14 +858,19 @@ def _sub_finer(sh, case):
             if stop:
                 break
         small = 1e-9 * eps
+        if m and at[0] < small:
+            sh.violation(f"{key0}:times-not-strictly-increasing:inserted-point-at-time-zero",
+                         f"times {ts} eps {eps}: first returned time {at[0]!r}", detail)
         for j in range(m - 1):
-            if at[j + 1] <= at[j]:
+            if at[j + 1] - at[j] < small:
                 if j in orig and (j + 1) in orig:
-                    sh.violation(f"{key0}:times-not-strictly-increasing", f"times {ts} eps {eps}: {at}", detail)
-                    break
-                sh.count("rounding_residual_steps")
-            elif at[j + 1] - at[j] < small:
-                sh.count("rounding_residual_steps")
+                    where = "original-points"
+                else:
+                    # the remainder of a gap that is a multiple of eps up to rounding must not be split once more
+                    where = "inserted-point-at-the-next-time" if j not in orig else "inserted-point-at-the-previous-time"
+                sh.violation(f"{key0}:times-not-strictly-increasing:{where}",
+                             f"times {ts} eps {eps}: {at[j]!r} then {at[j + 1]!r} in {at}", detail)
+                break
         sh.outcome((copy, vals, eps, ts, m))
     sh.count("finer_inputs_with_a_long_gap", nlong)
     sh.nontriv()
